@@ -35,11 +35,14 @@ def make_tables(rnd, wd):
                          'x': [rnd.choice([-2.5, 0.0, 1.25, 3.5, 10.0]) for _ in range(n)],
                          'y': [rnd.choice([40.0, 55.5, 80.0, 100.0, 200.0]) for _ in range(n)],
                          'k': [bool(rnd.getrandbits(1)) for _ in range(n)],
-                         's': [rnd.choice(['a', 'bc', 'é☃', 'x y', 'q1']) for _ in range(n)],
+                         # (object dtype: the default str dtype of pandas 3 is not a string type to tdda; NA-like words are values)
+                         's': pd.Series([rnd.choice(['a', 'bc', 'é☃', 'x y', 'q1', 'NA', 'null', 'None']) for _ in range(n)], dtype=object),
                          'd': pd.to_datetime([pd.Timestamp('2020-01-01') + pd.Timedelta(days=rnd.randint(0, 20)) for _ in range(n)])})
     pert = base.copy()
     pert.loc[0, 'x'] = 99.5
     pert.loc[1, 's'] = 'NEW-VALUE'
+    if n > 3:
+        pert.loc[3, 's'] = rnd.choice(['NA', 'null', 'None', 'n/a'])      # a word, not a missing value
     # beyond the discovered maximum, but within the tolerance of --epsilon 0.01: the verdict depends on epsilon
     pert.loc[2, 'y'] = float(base['y'].max()) * 1.005
     # a boolean field delivered as 0 / 1 integers: the library repairs field types before verifying, on every input format
@@ -235,7 +238,7 @@ def run(chk):
         tdda_path = os.path.join(d, 'cons.tdda')
         with open(tdda_path, 'w') as f:
             f.write(cs.to_json())
-        mode = ['verify-stdin', 'discover-stdout', 'missing-input', 'unknown-flag', 'verify-file', 'detect-stdout'][i % 6]
+        mode = ['verify-stdin', 'discover-stdout', 'missing-input', 'unknown-flag', 'verify-file', 'detect-stdout', 'detect-twice', 'verify-stdin'][i % 8]
         stdin = None
         if mode == 'verify-stdin':
             argv, stdin, want0 = ['verify', '-', tdda_path], open(inp).read(), True
@@ -247,6 +250,20 @@ def run(chk):
             argv, want0 = ['detect', '--bogus', inp, tdda_path, os.path.join(d, 'out.csv')], False
         elif mode == 'detect-stdout':
             argv, want0 = ['detect', inp, tdda_path, '-'], True
+        elif mode == 'detect-twice':
+            # the same output path twice: first on data with failing records, then on clean data (nothing to report)
+            outp_ = os.path.join(d, 'failures.' + rnd.choice(['csv', 'parquet']))
+            clean_inp = os.path.join(d, 'clean.parquet')
+            save(base, clean_inp)
+            # constraints discovered from the clean file as it loads, so that the clean run really has nothing to report
+            with contextlib.redirect_stdout(io.StringIO()), contextlib.redirect_stderr(io.StringIO()):
+                cs2 = discover_df(load_df(clean_inp), inc_rex=False)
+            tdda2 = os.path.join(d, 'clean.tdda')
+            with open(tdda2, 'w') as f:
+                f.write(cs2.to_json())
+            p0 = subprocess.run([common.PY, '-m', 'tdda.constraints.console', 'detect', inp, tdda2, outp_], cwd=d, env=env, text=True,
+                                stdout=subprocess.PIPE, stderr=subprocess.PIPE, timeout=120)
+            argv, want0 = ['detect', clean_inp, tdda2, outp_], True
         else:
             argv, want0 = ['verify', inp, tdda_path], True
         p = subprocess.run([common.PY, '-m', 'tdda.constraints.console'] + argv, cwd=d, env=env, input=stdin, text=True,
@@ -271,6 +288,10 @@ def run(chk):
                 ev_extra = {'stdout_lines': p.stdout.strip().splitlines()[:30], 'file_lines': filetext.strip().splitlines()[:30]}
             else:
                 ev_extra = {}
+        if mode == 'detect-twice' and p.returncode == 0:
+            # the library leaves no file when nothing failed; neither may the command (the earlier run's file is stale)
+            ev['sameaslib'] = not os.path.exists(outp_) if 'Records failing' not in p.stdout else True
+            ev_extra = {'first_run_exit': p0.returncode, 'output_exists_after_clean_run': os.path.exists(outp_)}
         if mode == 'discover-stdout' and p.returncode == 0:
             try:
                 got = json.loads(p.stdout)['fields']
@@ -281,7 +302,7 @@ def run(chk):
                 ev['sameaslib'] = False
         events.append(ev)
         detail[tid] = {'argv': argv, 'fault': mode, 'exit': p.returncode, 'stderr': p.stderr[-300:], 'stdout': p.stdout[-200:], 'subprocess': True}
-        if mode == 'detect-stdout' and p.returncode == 0:
+        if mode in ('detect-stdout', 'detect-twice') and p.returncode == 0:
             detail[tid].update(ev_extra)
         chk.coverage['replayed_cases'] += 1
         shutil.rmtree(d, ignore_errors=True)
